@@ -166,6 +166,8 @@ func c12Commands(thorough bool) []c12Cmd {
 		{"write-event-two-files", []string{"write", "event", "--chord", chordFile, "--chord", "{CHORDS2}", "--attr", attrFile, "--attr", "{ATTRS2}"}, c12UserDoc},
 		{"write-two-files", []string{"write", "--chord", "{CHORDS2}", "--chord", chordFile, "--attr", "{ATTRS2}", "--attr", attrFile}, c12UserDoc},
 		{"info-key-list", []string{"info", "key", "list"}, ""},
+		{"midi-port", []string{"midi", "port", "in"}, ""},
+		{"midi-port", []string{"midi", "port", "out"}, ""},
 		{"info-attr-list", []string{"info", "attr", "list"}, ""},
 		{"info-chord-list", []string{"info", "chord", "list"}, ""},
 		{"gen-attr", []string{"gen", "attr", "-d", "20"}, ""},
@@ -965,8 +967,10 @@ func runC12(e *Env) {
 	var ios []c12IOCase
 	seenIO := map[string]bool{}
 	for _, c := range cmds {
-		if c.Name == "help" {
-			continue // a help text is not a result: it goes to stdout whatever -o says
+		if c.Name == "help" || c.Name == "midi-port" {
+			// a help text is not a result: it goes to stdout whatever -o says; `midi port` lists what the
+			// driver offers and is not among the data-producing commands the statement names (it ignores -o)
+			continue
 		}
 		if c.Name == "info-key-conv" && !(strings.Contains(c12Key(c), "--key E ") || strings.Contains(c12Key(c), "--key C ")) {
 			continue
